@@ -7,6 +7,8 @@
 (*   reqcall (id, rq, what = "ok" | "limit" | "skipped" | "error..", n = 1 Then registered  *)
 (*            at once, m = 1 StashNonReentrant)   ctx.Request returned                      *)
 (*   then   (rq)                    Then registered on the handle later (on the turn)      *)
+(*   disable / enable (n = 1 error) ctx.DisableReentrancy() / ctx.EnableReentrancy(..) ran; *)
+(*            reqcall m = 2: the request carried no per-call mode override                   *)
 (*   cause  (rq, what = reply | timeout | cancel)  a completion signal is about to be sent *)
 (*            towards the requester (responder released / timer goroutine released /       *)
 (*            Cancel called)                                                                *)
@@ -20,11 +22,11 @@ EXTENDS Integers, Sequences, FiniteSets, TLC, Json
 
 Trace == ndJsonDeserialize("trace.ndjson")
 
-VARIABLES l, maxf, sent, handled, inH, reqs, causes, cbs, hascb, stopped
-vars == <<l, maxf, sent, handled, inH, reqs, causes, cbs, hascb, stopped>>
+VARIABLES l, en, maxf, sent, handled, inH, reqs, causes, cbs, hascb, stopped
+vars == <<l, en, maxf, sent, handled, inH, reqs, causes, cbs, hascb, stopped>>
 \* reqs: set of [rq, stash]; causes: set of [rq, what]; cbs: Seq of [rq, what]; hascb: set of rq
 
-Init == /\ l = 1 /\ maxf = 0 /\ sent = {} /\ handled = <<>> /\ inH = 0 /\ reqs = {} /\ causes = {} /\ cbs = <<>> /\ hascb = {}
+Init == /\ l = 1 /\ en = TRUE /\ maxf = 0 /\ sent = {} /\ handled = <<>> /\ inH = 0 /\ reqs = {} /\ causes = {} /\ cbs = <<>> /\ hascb = {}
         /\ stopped = FALSE
 
 Bad(what, x) == PrintT(<<"MISMATCH", "C16", l, what, x>>)
@@ -42,34 +44,40 @@ Step ==
   /\ l' = l + 1
   /\ LET e == Trace[l] IN
      CASE e.ev = "New" ->
-            /\ maxf' = e.id /\ sent' = {} /\ handled' = <<>> /\ inH' = 0 /\ reqs' = {} /\ causes' = {} /\ cbs' = <<>> /\ hascb' = {}
+            /\ en' = TRUE /\ maxf' = e.id /\ sent' = {} /\ handled' = <<>> /\ inH' = 0 /\ reqs' = {} /\ causes' = {} /\ cbs' = <<>> /\ hascb' = {}
             /\ stopped' = FALSE
-       [] e.ev = "send" -> sent' = sent \cup {e.id} /\ UNCHANGED <<maxf, handled, inH, reqs, causes, cbs, hascb, stopped>>
+       [] e.ev = "send" -> sent' = sent \cup {e.id} /\ UNCHANGED <<en, maxf, handled, inH, reqs, causes, cbs, hascb, stopped>>
        [] e.ev = "enter" ->
             /\ Check(BlockingForSure = {}, "an ordinary message is handled while a StashNonReentrant request is outstanding", e.id)
             /\ Check(inH = 0, "two handlers at once", e.id)
-            /\ inH' = e.id /\ UNCHANGED <<maxf, sent, handled, reqs, causes, cbs, hascb, stopped>>
+            /\ inH' = e.id /\ UNCHANGED <<en, maxf, sent, handled, reqs, causes, cbs, hascb, stopped>>
        [] e.ev = "exit" ->
-            /\ inH' = 0 /\ handled' = Append(handled, e.id) /\ UNCHANGED <<maxf, sent, reqs, causes, cbs, hascb, stopped>>
+            /\ inH' = 0 /\ handled' = Append(handled, e.id) /\ UNCHANGED <<en, maxf, sent, reqs, causes, cbs, hascb, stopped>>
        [] e.ev = "reqcall" ->
             /\ Check(e.what # "limit" \/ (maxf > 0 /\ Cardinality(RqIds \ Done) >= maxf),
                      "Request refused with the in-flight limit although fewer requests than the limit can be in flight", e.id)
             /\ Check(e.what # "ok" \/ maxf = 0 \/ Cardinality(RqIds \ Caused) < maxf,
                      "Request accepted although the in-flight limit is reached", e.rq)
-            /\ Check(e.what \in {"ok", "limit", "skipped"}, "Request failed unexpectedly", e.id)
+            /\ Check(e.what \in {"ok", "limit", "skipped", "disabled"}, "Request failed unexpectedly", e.id)
+            /\ Check(e.what # "disabled" \/ (~en /\ e.m = 2), "Request refused as disabled although the policy is on or the call overrides the mode", e.id)
+            /\ Check(~(e.what = "ok" /\ e.m = 2 /\ ~en), "Request without a mode override admitted while reentrancy is disabled", e.rq)
             /\ reqs' = IF e.what = "ok" THEN reqs \cup {[rq |-> e.rq, stash |-> e.m = 1]} ELSE reqs
             /\ hascb' = IF e.what = "ok" /\ e.n = 1 THEN hascb \cup {e.rq} ELSE hascb
-            /\ UNCHANGED <<maxf, sent, handled, inH, causes, cbs, stopped>>
-       [] e.ev = "then" -> hascb' = hascb \cup {e.rq} /\ UNCHANGED <<maxf, sent, handled, inH, reqs, causes, cbs, stopped>>
-       [] e.ev = "cause" -> causes' = causes \cup {[rq |-> e.rq, what |-> e.what]} /\ UNCHANGED <<maxf, sent, handled, inH, reqs, cbs, hascb, stopped>>
+            /\ UNCHANGED <<en, maxf, sent, handled, inH, causes, cbs, stopped>>
+       [] e.ev = "disable" -> en' = FALSE /\ UNCHANGED <<maxf, sent, handled, inH, reqs, causes, cbs, hascb, stopped>>
+       [] e.ev = "enable" ->
+            /\ Check(e.n = 0, "EnableReentrancy failed", e.id)
+            /\ en' = TRUE /\ UNCHANGED <<maxf, sent, handled, inH, reqs, causes, cbs, hascb, stopped>>
+       [] e.ev = "then" -> hascb' = hascb \cup {e.rq} /\ UNCHANGED <<en, maxf, sent, handled, inH, reqs, causes, cbs, stopped>>
+       [] e.ev = "cause" -> causes' = causes \cup {[rq |-> e.rq, what |-> e.what]} /\ UNCHANGED <<en, maxf, sent, handled, inH, reqs, cbs, hascb, stopped>>
        [] e.ev = "cb" ->
             /\ Check(NCb(e.rq) = 0, "the continuation of a request ran more than once", e.rq)
             /\ Check(e.rq \in hascb, "a continuation ran that was never registered", e.rq)
             /\ Check([rq |-> e.rq, what |-> e.what] \in causes, "a request completed with an outcome nobody produced", e.rq)
             /\ Check(e.n = 1, "the continuation did not run on the requester's turn", e.rq)
             /\ cbs' = Append(cbs, [rq |-> e.rq, what |-> e.what])
-            /\ UNCHANGED <<maxf, sent, handled, inH, reqs, causes, hascb, stopped>>
-       [] e.ev = "stop" -> stopped' = TRUE /\ UNCHANGED <<maxf, sent, handled, inH, reqs, causes, cbs, hascb>>
+            /\ UNCHANGED <<en, maxf, sent, handled, inH, reqs, causes, hascb, stopped>>
+       [] e.ev = "stop" -> stopped' = TRUE /\ UNCHANGED <<en, maxf, sent, handled, inH, reqs, causes, cbs, hascb>>
        [] e.ev = "End" ->
             /\ \/ e.id # 1
                \/ /\ \A r \in (hascb \cap Caused) : Check(stopped \/ NCb(r) = 1, "a request was completed but its continuation never ran", r)
@@ -79,8 +87,8 @@ Step ==
                   /\ Check(stopped \/ BlockingForSure # {} \/ e.stash = 0, "messages are still stashed although no StashNonReentrant request is in flight", e.stash)
                   /\ Check(~stopped \/ (e.n = 0 /\ e.m = 0), "counters not reset by the shutdown", e.n)
                   /\ \A c \in sent : Check(stopped \/ BlockingForSure # {} \/ NHandled(c) = 1, "a message was not handled exactly once", c)
-            /\ UNCHANGED <<maxf, sent, handled, inH, reqs, causes, cbs, hascb, stopped>>
-       [] OTHER -> UNCHANGED <<maxf, sent, handled, inH, reqs, causes, cbs, hascb, stopped>>
+            /\ UNCHANGED <<en, maxf, sent, handled, inH, reqs, causes, cbs, hascb, stopped>>
+       [] OTHER -> UNCHANGED <<en, maxf, sent, handled, inH, reqs, causes, cbs, hascb, stopped>>
 
 Spec == Init /\ [][Step]_vars
 =============================================================================
